@@ -424,7 +424,9 @@ where
         + LossyFrom<I9F23>
         + LossyFrom<U0F128>,
 {
-    //wraparound
+    //wraparound: the remainder leaves at most one turn for the loops below,
+    //which then pick the same representative as repeated subtraction would
+    angle = angle % T::lossy_from(TWO_PI);
     while angle > PI {
         #[cfg(substrate_fixed_verif)]
         verif_tick();
